@@ -213,9 +213,14 @@ func (b *build) search(prop, tier string, seed int64, workers int, tc tierCfg, a
 			case <-time.After(tc.budget + 180*time.Second):
 				cmd.Process.Kill()
 				<-done
+				// (the run the worker was in when it was killed: the one to look at)
+				hung := -1
+				if cb, e := os.ReadFile(filepath.Join(out, fmt.Sprintf("cur-%d", w))); e == nil && len(cb) >= 8 {
+					hung = int(binary.LittleEndian.Uint64(cb))
+				}
 				mu.Lock()
 				defer mu.Unlock()
-				res.crashes = append(res.crashes, crashRec{worker: w, run: -1, output: "watchdog"})
+				res.crashes = append(res.crashes, crashRec{worker: w, run: -1, output: fmt.Sprintf("watchdog (in run %d)", hung)})
 				return
 			}
 			if err != nil {
@@ -248,8 +253,8 @@ func (b *build) search(prop, tier string, seed int64, workers int, tc tierCfg, a
 	wg.Wait()
 	res.wall = time.Since(start).Seconds()
 	for _, c := range res.crashes {
-		if c.run == -1 && c.output == "watchdog" {
-			infra("watchdog: worker %d did not finish within its budget + 180 s (simulator hang, not a verdict)", c.worker)
+		if c.run == -1 && strings.HasPrefix(c.output, "watchdog") {
+			infra("%s: worker %d did not finish within its budget + 180 s (simulator hang, not a verdict); reproduce with: VERIF_SEED=%d vsim check %s --tier %s, or the single run through a replay file", c.output, c.worker, seed, prop, tier)
 		}
 		if c.run == -2 {
 			infra("harness panic in worker %d:\n%s", c.worker, c.output)
